@@ -242,6 +242,12 @@ def run_special():
                 app = (guard + "\n" + emit + "grow()\n" + ("}\n" if guard else "")) * k
                 texts.append("en := 1\n.macro grow() {\n" + app + "}\ngrow()\n")
                 texts.append("en := 1\n.macro grow(n) {\n" + app.replace("grow()", "grow(n+1)") + "}\n*=0x018000\ngrow(0)\n")
+    # statements that end on / run past the last byte of the highest mapped bank (built-in and user mappings)
+    for org in ("0x6fffff", "0x6ffffd", "0xcfffff", "0xcffffd", "0xffffff", "0xfffffd", "0x7dffff", "0x7fffff"):
+        for st in (".db 0x60", ".dl 0x123456", ".dw 1, 2, 3", "lda.l 0x123456", ".ascii 'abcdef'", "l:\n.dl l"):
+            texts.append(f"*={org}\n{st}\nafter:\n.db 1\n")
+    texts.append(".map identifier=1 bank_range=0x10, 0x11 addr_range=0x8000, 0xffff mask=0x8000\n*=0x11fffe\n.dl 0x123456\n.db 1\n")
+    texts.append(".map identifier=1 bank_range=0xfe, 0xff addr_range=0x0000, 0xffff mask=0x10000\n*=0xfffffe\n.dl 0x123456\n.db 1\n")
     # symbol definitions that refer to each other, to themselves or to nothing: all sequences of <=4 lines
     import itertools as _it
     sym_lines = ["a := 0", "a = a + 1", "a = b", "b = a + 1", "b = nope", ".db a", "a:", "b := a"]
